@@ -30,7 +30,7 @@ def enumerate_shapes(module, constants, invariants=("InvIntegrity",), workers=8,
     lines += [f"INVARIANT {i}" for i in invariants] + ["INVARIANT EmitState", "CHECK_DEADLOCK FALSE"]
     open(cfg, "w").write("\n".join(lines) + "\n")
     t0 = time.time()
-    p = subprocess.run(core._tlc_cmd(module, cfg, os.path.join(d, "meta"), workers, "6g"), capture_output=True,
+    p = subprocess.run(core._tlc_cmd(module, cfg, os.path.join(d, "meta"), workers, "3g"), capture_output=True,
                        text=True, cwd=common.SPEC, timeout=timeout)
     out = p.stdout + p.stderr
     states, seen, rest = [], set(), []
